@@ -1,7 +1,8 @@
 (** Lemmas about [restrict] (the options restricted to a set of dotted keys). *)
 From Coq Require Import List NArith ZArith Bool Lia.
 Import ListNotations.
-From LV Require Import Model.Base Proofs.BaseProofs Proofs.FrameProofs.
+From LV Require Import Model.Base Proofs.BaseProofs.
+From LV Require Import Proofs.FrameProofs.
 
 Lemma restrictj_obj m ks : restrictj (JObj m) ks = JObj (restrict m ks).
 Proof. reflexivity. Qed.
